@@ -51,6 +51,7 @@ def run(ctx):
             c["pool"] = POOL
             c["sql"] = render(c["filter"], NAMES, POOL, LITFMT)
             c["tview"] = (j % 3 == 2)
+            c["fmt"] = "json" if j % 5 == 4 else "parquet"
             c["rg"] = ctx.rng.choice([2, 3, 100])
             rnd = {s: ctx.rng.random() < 0.5 for s in ["reorder_filters", "enable_page_index", "pruning", "schema_force_view_types"]}
             c["configs"] = [dict(rnd, pushdown_filters=False, tp=1), dict(rnd, pushdown_filters=True, tp=ctx.rng.choice([1, 2])),
@@ -69,7 +70,7 @@ def run(ctx):
     cnt = res["counters"]
     must = [f"variant_{k}_{v}" for k, vs in dict(ta=["i8", "i32", "i64"], tb=["i8", "i32", "i64"], ts=["utf8", "large", "dict"], stv=["pq", "qp", "p", "q", "pqr"],
                                                  inv=["none", "uw", "wu", "u", "uwz"], tt=["s", "ms", "us", "ns", "ms_utc"], tm=["5_1", "7_2", "10_2"]).items() for v in vs]
-    must += [f"variant_without_{k}" for k in ["ha", "hb", "hs", "hst", "hls", "ht", "hm"]] + ["files_with_null_struct_rows", "table_with_utf8view"]
+    must += [f"variant_without_{k}" for k in ["ha", "hb", "hs", "hst", "hls", "ht", "hm"]] + ["files_with_null_struct_rows", "table_with_utf8view", "format_ndjson", "format_parquet"]
     never = [m for m in must if cnt.get(m, 0) == 0]
     colmap = {1: "ha", 2: "hb", 3: "hs", 4: "hst", 5: "hst", 6: "hst", 7: "hst", 8: "hst", 9: "hls", 10: "hls", 11: "ht", 12: "hm"}
     def cols_of(x):
@@ -96,6 +97,6 @@ def run(ctx):
         "counters": res["counters"],
     }, assumptions=[
         "castable lattice: Int8 < Int32 < Int64 (values fit every width), Utf8 ~ LargeUtf8 ~ Dictionary(Int32,Utf8) (~ Utf8View table column), Timestamp s/ms/us/ns/ms+UTC -> us, Decimal(5,1)/(7,2) -> (10,2); struct with reordered / missing / extra fields and a nested struct field (two levels); List<Struct>",
-        "struct columns are compared field by field plus `st IS NULL` (NULL struct vs struct of NULLs is distinguished); list-of-struct has one element per row; CSV/JSON files are not generated (their readers, not the adapter, fill missing columns)",
+        "struct columns are compared field by field plus `st IS NULL` (NULL struct vs struct of NULLs is distinguished); list-of-struct has one element per row; every fifth case stores the same logical files as NDJSON (missing keys, reordered / extra struct fields, null structs); CSV is positional and is not generated",
         "Parquet files in an in-memory object store, read through ListingTable with an explicit schema",
     ])
